@@ -387,6 +387,7 @@ type SimpVar struct {
 	Dx      int64 `json:"dx"`
 	Dy      int64 `json:"dy"`
 	K       int64 `json:"k"` // scale (power of two); epsilon is scaled with it
+	KExp    int   `json:"kexp"` // floating-point variants only: scale 2^kexp with kexp < 0 (k is then logged as 0)
 	Removed []int `json:"removed"`
 }
 
@@ -414,6 +415,11 @@ type SimplifyEv struct {
 }
 
 func runSimplify(api string, path Path, eps float64, closed bool) (Path, []int, string) {
+	return runSimplifyF(api, path, eps, closed, 1)
+}
+
+// runSimplifyF: f scales the coordinates handed to the floating-point variants (a power of two, exact)
+func runSimplifyF(api string, path Path, eps float64, closed bool, f float64) (Path, []int, string) {
 	var removed []int
 	var res Path
 	out := safeCall(func() {
@@ -427,7 +433,7 @@ func runSimplify(api string, path Path, eps float64, closed bool) (Path, []int, 
 		case "SimplifyPathD", "SimplifyPathsD":
 			pd := make(clipper.PathD, len(path))
 			for i, q := range path {
-				pd[i] = clipper.PointD{X: float64(q[0]), Y: float64(q[1])}
+				pd[i] = clipper.PointD{X: float64(q[0]) * f, Y: float64(q[1]) * f}
 			}
 			var rd clipper.PathD
 			if api == "SimplifyPathD" {
@@ -437,7 +443,7 @@ func runSimplify(api string, path Path, eps float64, closed bool) (Path, []int, 
 			}
 			res = make(Path, len(rd))
 			for i, q := range rd {
-				res[i] = Pt{int64(math.Round(q.X)), int64(math.Round(q.Y))}
+				res[i] = Pt{int64(math.Round(q.X / f)), int64(math.Round(q.Y / f))}
 			}
 		}
 	})
@@ -508,6 +514,22 @@ func execSimplify(r *rand.Rand, e *SimplifyEv) {
 				q[i] = Pt{p[0]*v.K + v.Dx, p[1]*v.K + v.Dy}
 			}
 			_, rem, out := runSimplify(e.Api, q, eps*float64(v.K), e.Closed)
+			if out != "ok" {
+				rem = []int{-1}
+			}
+			v.Removed = rem
+			e.Vars = append(e.Vars, v)
+		}
+		if e.Api == "SimplifyPathD" || e.Api == "SimplifyPathsD" {
+			// floating-point variants: path and epsilon divided by a power of two (down to 2^-40)
+			v := SimpVar{K: 0}
+			if len(recorded) > 3 {
+				v.KExp = recorded[3].KExp
+			} else {
+				v.KExp = -(1 + r.Intn(40))
+			}
+			f := math.Ldexp(1, v.KExp)
+			_, rem, out := runSimplifyF(e.Api, e.Path, eps*f, e.Closed, f)
 			if out != "ok" {
 				rem = []int{-1}
 			}
